@@ -241,4 +241,21 @@ def theorem(t, l, tid, b2, sid):
             reach(s, "_prepare_message/reach@return")
         ex.run(KICKER['_prepare_message'], st, on_ret, lambda s, x: None)
     run_prepare_message()
+    # ---------------- AsyncTaskiqDecoratedTask.kiq: a plain call goes through a FRESH kicker with the caller's args/kwargs  [C09/C08]
+    TKIQ = src.func(DREL, 'AsyncTaskiqDecoratedTask.kiq')
+    seen = {}
+    def h_self_kicker(ex_, st_, e, recv, args, kw, k, K): seen['kicker_calls'] = seen.get('kicker_calls', 0) + 1; return k(st_, 'FRESH_KICKER')
+    class ExT(Exec):
+        def find_handler(self, name, recv=None):
+            if recv == 'FRESH_KICKER' and name.endswith('.kiq'):
+                def h(ex_, st_, e, r, args, kw, k, K):
+                    seen['kiq'] = ([ast.unparse(a) for a in e.args], [ast.unparse(kk.value) for kk in e.keywords if kk.arg in (None, '**')]); return k(st_, Tok(lambda s2, k2, K2: k2(s2, fresh('task_handle'))))
+                return h
+            return super().find_handler(name, recv)
+    ext = ExT({'self.kicker': h_self_kicker}); stt = State(); stt.env = {'self': PyObj(Int('task_self')), 'args': fresh('args'), 'kwargs': fresh('kwargs')}
+    def t_ret(s, v):
+        oblige(s, "decorated task.kiq/post: sends through a kicker created for this call (no customisation of an earlier call can leak) with exactly the caller's args and kwargs  [C09/C08]",
+               BoolVal(seen.get('kicker_calls') == 1 and seen.get('kiq') == (['*args'], ['kwargs'])), replay=RP)
+        reach(s, "decorated task.kiq/reach@return")
+    ext.run(TKIQ, stt, t_ret, lambda s, x: None)
     return {}
